@@ -9,6 +9,7 @@ Import ListNotations.
 Open Scope N_scope.
 
 From Breadlog Require Import Proofs.RoundTrip.
+From Breadlog Require Import Model.Utf8 Model.Driver Model.History Proofs.CanonicalRun.
 
 (* For ANY parse tree of a statement in canonical form -- optional target, ANY number of key-values
    (each a key node, optionally a value node), then the message literal -- in structured mode with
@@ -203,6 +204,54 @@ Proof.
   - do 6 eexists. vm_compute. repeat split; reflexivity.
 Qed.
 
+(* THE WHOLE NEW TEXT.  After an edit run -- every tree, lock state, fault oracle and stop point -- a readable
+   canonical file is byte-for-byte unchanged, or its bytes are exactly the UTF-8 encoding of the canonical file
+   `retoken its`: same layout, names, arguments and other items, and each statement that lacked a reference now
+   has one (consecutive N in file order) ... *)
+Theorem C13_canonical_rewritten : forall rc files lk o j b its fin,
+  files <> [] -> nth_error files j = Some b ->
+  utf8_decode b = Some (render_items its fin) -> items_ok its fin -> o_rfail2 o j = false ->
+  let new := nth_error (w_src (after rc files lk o)) j in
+  new = Some b \/
+  exists c0, new = Some (utf8_encode (render_items (retoken (rc_cfg rc) (render_items its fin) its [] c0) fin)).
+Proof. exact canonical_file_rewritten. Qed.
+
+(* ... as the key-value  ref = N  (`add_kv`): the first key-value, directly after the bracket or directly after the
+   target argument, "," when key-values follow and ";" when none do -- a statement of the same canonical language,
+   whose text is the old text with exactly the inserted string at the reported position (and as the token at the
+   start of the message when the entry is of the message kind: the no-kvp directive) *)
+Theorem C13_inserted_key_value : forall cfg code pre1 it e,
+  item_step cfg code pre1 it = Emit e -> missing_insert e = true ->
+  ((exists n l us, it = IStmt n l us) \/ (exists n a, it = IStmtA n a)) /\
+  exists t, render_item it = (head_of it e ++ t)%list /\ e_pos e = blen (pre1 ++ head_of it e) /\
+            forall id, render_item (add_ref it e id) = (head_of it e ++ insertable the_params e id ++ t)%list.
+Proof. exact step_split. Qed.
+
+(* the text of the example after the run:
+     fn f() {
+         info!(ref = 12, user = "bob"; "hello");
+         warn!(target: "net", ref = 13, attempts = 3 ; "retry");
+         error!(ref = 14; "boom");
+         debug!(target: "x", ref = 15; "plain");
+         info!(a, ref = 7 /* c */; "m");
+         warn!(user:? = u.name, n = x + 1, ref = 9; "m");
+     }
+*)
+Definition rw_text : list N :=
+  [102;110;32;102;40;41;32;123;10;32;32;32;32;105;110;102;111;33;40;114;101;102;32;61;32;49;50;44;32;117;115;101;114;32;61;32;34;98;111;98;34;59;32;34;104;101;108;108;111;34;41;59;10;32;32;32;32;119;97;114;110;33;40;116;97;114;103;101;116;58;32;34;110;101;116;34;44;32;114;101;102;32;61;32;49;51;44;32;97;116;116;101;109;112;116;115;32;61;32;51;32;59;32;34;114;101;116;114;121;34;41;59;10;32;32;32;32;101;114;114;111;114;33;40;114;101;102;32;61;32;49;52;59;32;34;98;111;111;109;34;41;59;10;32;32;32;32;100;101;98;117;103;33;40;116;97;114;103;101;116;58;32;34;120;34;44;32;114;101;102;32;61;32;49;53;59;32;34;112;108;97;105;110;34;41;59;10;32;32;32;32;105;110;102;111;33;40;97;44;32;114;101;102;32;61;32;55;32;47;42;32;99;32;42;47;59;32;34;109;34;41;59;10;32;32;32;32;119;97;114;110;33;40;117;115;101;114;58;63;32;61;32;117;46;110;97;109;101;44;32;110;32;61;32;120;32;43;32;49;44;32;114;101;102;32;61;32;57;59;32;34;109;34;41;59;10;125;10].
+
+(* on the example above: the model of the whole run and `retoken` give the same bytes, and the text is the one
+   expected -- statements 2, 3 and 4 receive 13, 14, 15 (the largest existing reference is 12) *)
+Example C13_rewritten_nonvacuous :
+  let cfg := mkConfig true [([108;111;103], [105;110;102;111]); ([108;111;103], [119;97;114;110]);
+                            ([108;111;103], [101;114;114;111;114]); ([108;111;103], [100;101;98;117;103])] in
+  let code := render_items kv_items kv_fin in
+  let o := mkOracle None None (fun _ => false) (fun _ => false) (fun _ => FNone) LkOk in
+  nth_error (w_src (after (mkRunCfg cfg true) [utf8_encode code] LAbsent o)) 0
+    = Some (utf8_encode (render_items (retoken cfg code kv_items [] 13) kv_fin)) /\
+  render_items (retoken cfg code kv_items [] 13) kv_fin = rw_text.
+Proof. cbv zeta. split; vm_compute; reflexivity. Qed.
+
 (* ... and followed by blanks AND comments up to the delimiter (the value's span includes them; the text
    from the first comment opener on is dropped before trimming -- repaired defect F10b): g is empty or
    begins with a comment opener, as every rendered layout after its white space does *)
@@ -234,4 +283,6 @@ Print Assumptions C13_canonical_files.
 Print Assumptions C13_structured_statement.
 Print Assumptions C13_ref_key.
 Print Assumptions C13_pieces.
+Print Assumptions C13_canonical_rewritten.
+Print Assumptions C13_inserted_key_value.
 Print Assumptions C13_message_style_statement.
